@@ -400,6 +400,10 @@ func (b *AESGCMBarrier) ReloadKeyring(ctx context.Context) error {
 		return errors.New("keyring unexpectedly missing")
 	}
 
+	if len(out.Value) < 4 {
+		return errors.New("invalid keyring value")
+	}
+
 	// Verify the term is always just one
 	term := binary.BigEndian.Uint32(out.Value[:4])
 	if term != initialKeyTerm {
@@ -524,6 +528,10 @@ func (b *AESGCMBarrier) Unseal(ctx context.Context, key []byte) error {
 	}
 	if out == nil {
 		return ErrBarrierNotInit
+	}
+
+	if len(out.Value) < 4 {
+		return errors.New("invalid keyring value")
 	}
 
 	// Verify the term is always just one
